@@ -77,6 +77,11 @@ type node struct {
 	depth int
 }
 
+var c16mode bool
+
+// kinds of mismatch that concern C16 (validity of the directory along histories)
+var c16kinds = map[string]bool{"check": true, "tmp-residue": true, "stale-file": true, "missing-file": true, "op-should-fail": true, "op-should-succeed": true}
+
 var (
 	users = []string{"a", "b"}
 	pws   []string
@@ -85,7 +90,12 @@ var (
 )
 
 func main() {
-	ev = verifev.New("C01", "seqx")
+	as := os.Getenv("VERIF_AS")
+	if as == "" {
+		as = "C01"
+	}
+	ev = verifev.New(as, "seqx")
+	c16mode = as == "C16"
 	if ev.Thorough() {
 		pws = []string{"", "x", "xy", "X", "x\x00"}
 		sets = []uint{1, 2, 3}
@@ -100,7 +110,9 @@ func main() {
 	ev.Assumptions = []string{"cheap parameter sets (argon2id t1/m8/p1/l16, scrypt N=2 r1 p1, argon2id t2/m16/p1/l32) stand for all parameter sets",
 		"operations are executed sequentially (serialisation by the agent is C11's subject)"}
 	bfs()
-	nearMiss()
+	if !c16mode {
+		nearMiss()
+	}
 	ev.Finish()
 }
 
@@ -224,6 +236,9 @@ func step(dir string, n *node, o op) *node {
 	}
 	path := append(append([]op{}, n.path...), o)
 	fail := func(kind, format string, a ...any) {
+		if c16mode && !c16kinds[kind] {
+			return
+		}
 		desc := fmt.Sprintf(format, a...)
 		var ps []string
 		for _, x := range path {
